@@ -487,6 +487,8 @@ class Lifter_MSP430(Lifter):
 
     def get_ir(self, instr):
         args = instr.args
+        if not instr.name in mnemo_func:
+            raise NotImplementedError('unknown mnemo %s' % instr)
         instr_ir, extra_ir = mnemo_func[instr.name](self, instr, *args)
         self.mod_sr(instr, instr_ir, extra_ir)
 
